@@ -90,6 +90,21 @@ NARROW = {"int8w": _pl("Int8"), "int16w": _pl("Int16"), "uint8w": _pl("UInt8"), 
 NARROW_RANGE = {"int8w": (-128, 127), "int16w": (-300, 300), "uint8w": (0, 255), "uint16w": (0, 600)}
 
 
+def zero_some_weights(rng, feature, w):
+    """set some case weights to exactly 0 (exposure 0), but only on rows whose feature value also occurs in a row that keeps a
+    positive weight (equal values share a group, so every group keeps a positive total weight)"""
+    groups = {}
+    for i, v in enumerate(feature):
+        key = "null" if (v is None or v == "nan" or (isinstance(v, float) and v != v)) else repr(v)
+        groups.setdefault(key, []).append(i)
+    w = list(w)
+    for idx in groups.values():
+        if len(idx) >= 2 and rng.random() < 0.6:
+            for i in rng.sample(idx, rng.randint(1, len(idx) - 1)):
+                w[i] = 0.0
+    return w
+
+
 def gen_narrow_feature(rng, many_bins):
     """integer feature in a narrow dtype; many_bins: enough distinct values for more bins than an 8-bit index holds"""
     kind = rng.choice(["int8w", "int8w", "uint8w"]) if many_bins else rng.choice(list(NARROW))
